@@ -118,7 +118,8 @@ pub fn run_case(out: &mut Out, rng: &mut Rng, thorough: bool, case_no: u64) {
         let obs = match r { Err(_) => "trap".to_string(), Ok(Ok(())) => "ok".to_string(), Ok(Err(e)) => err_text(&e) };
         out.count(&format!("{}:{}", name.split("-level").next().unwrap(), obs));
         fp.push_str(&obs[..2]);
-        out.emit(&format!("b validate {}", block_text(&Block::new(blk), Network::Regtest)), &obs);
+        let b = Block::new(blk);
+        out.emit(&format!("b validate {} {}", block_text(&b, Network::Regtest), crate::canister::block_hex(&b)), &obs);
     }
     out.nontrivial(fnv(fp.as_bytes()) ^ case_no.wrapping_mul(0x9E3779B97F4A7C15));
 }
